@@ -64,7 +64,7 @@ fn main() {
                 let exe = std::env::current_exe().unwrap();
                 // watchdog: code under test that blocks its thread for ever (a lock taken twice, a
                 // loop without an await) must not hang the checker
-                let limit_s: u64 = std::env::var("TRSIM_TIMEOUT_S").ok().and_then(|s| s.parse().ok()).unwrap_or(if tier == Tier::Thorough { 6 * 3600 } else { 600 });
+                let limit_s: u64 = std::env::var("TRSIM_TIMEOUT_S").ok().and_then(|s| s.parse().ok()).unwrap_or(if tier == Tier::Thorough { 6 * 3600 } else { 300 });
                 let mut child = std::process::Command::new(&exe).args(&args[1..]).env("TRSIM_CHILD", "1").spawn().expect("spawn");
                 let started = std::time::Instant::now();
                 let mut hung = false;
